@@ -29,7 +29,7 @@ add("C04", "exploration",
     "Agent part: generated histories of pending-list replies (repeats, permutations, overlapping subsets, full re-listing as the App "
     "Engine proxy does, 999/1000-ID boundary cases) with generated gaps and fetch/upload/backend delays are served by a fake proxy to the "
     "real agent binary; a counting backend and the upload log give invocations per ID (must be exactly 1 for every listed ID). Server "
-    "part: 1-16 concurrent harness pollers against the real stand-alone proxy while clients arrive (incl. bursts of 99-250 clients queued before the first poll); the multiset of listed IDs must be "
+    "part: 1-16 concurrent harness pollers against the real stand-alone proxy while clients arrive (incl. bursts of 99-250 clients queued before the first poll); in the agent part some requests have their first three response uploads ended without an answer and are listed again; the multiset of listed IDs must be "
     "duplicate-free and complete, and resolve to distinct clients. Histories and schedules are sampled.",
     "The 1000-entry window is taken from the property text; IDs of earlier cases still occupy the agent's LRU (they are older, so they "
     "are evicted first). app/store's own listing is exercised by C19, not here.",
@@ -56,12 +56,13 @@ add("C08", "exploration",
     "2^32, max) and compared with the closed form min(2^n ms, 3 s) x [0.9,1.1] computed in big-integer arithmetic; a native fuzz target "
     "repeats this in the thorough tier. (b) generated fail/succeed patterns of list calls (5xx, 404, garbage, truncated body, error statuses with an empty body) are served to the real agent binary; lower "
     "bounds on the observed gaps (a sleep never returns early) and a reset probe (k>=9 failures, success, failure => short gap, "
-    "confirmed on a second run) decide doubling, reset and absence of busy-looping.",
+    "confirmed on a second run) decide doubling, reset and absence of busy-looping. (c) list calls ended below HTTP (connection closed or reset without a response) "
+    "for 2-3 s: the number of calls arriving in the window is bounded (<= 60; 13 fit the delays).",
     "Upper bounds on observed gaps are not asserted (load-sensitive) except in the reset probe, where the two alternatives differ by "
-    "two orders of magnitude. Connection-level failures retried inside Go's HTTP transport are not used as a failure kind.",
+    "two orders of magnitude. Connection-level failures may be repeated once inside Go's HTTP transport; they are therefore judged by call counts per window (c), never by single gaps.",
     "property-based testing (rapid) against a closed-form oracle; native go fuzzing; generated failure patterns with timestamp lower bounds", "3/C08")
 add("C09", "exploration",
-    "Generated client header sets (forged/repeated/re-cased identity fields, Authorization fields, noise) are sent as plain requests and "
+    "Generated client header sets (forged/repeated/re-cased identity fields, Authorization fields, Connection fields nominating those names as hop-by-hop, noise) are sent as plain requests and "
     "as websocket-shim open requests through 16 agent binaries, one per combination of --forward-user-id, --strip-credentials, shim and "
     "session tracking, with generated proxy-asserted identities; a recording backend (HTTP and websocket handshake) checks the "
     "exact-one-value / absent-field predicate, and pass-through when a flag is off. Inputs are sampled; the 16 configurations are all covered.",
@@ -77,8 +78,8 @@ add("C20", "exploration",
     "list-call rule. A bound hit only once is reported as inconclusive.",
     "property-based testing (rapid): generated health-check histories against a counter model; generated signal/phase/grace scenarios with one-sided time bounds", "3/C20")
 add("C07", "fault_enumeration",
-    "41 fault kinds over all injection points (pending list, request fetch, backend connect/headers/body, response upload, shim "
-    "endpoints incl. a real shim session fed odd message shapes, transport-level failures of list and fetch calls, unreachable backend) are (a) enumerated exhaustively at three positions of a stream of healthy requests and (b) inserted "
+    "45 fault kinds over all injection points (pending list, request fetch, backend connect/headers/body, response upload, shim "
+    "endpoints incl. a real shim session fed odd message shapes, transport-level failures of list and fetch calls, three-digit status codes outside 100-599, conflicting lengths, unreachable backend) are (a) enumerated exhaustively at three positions of a stream of healthy requests and (b) inserted "
     "at generated positions/multiplicities into generated streams of 10-60 healthy concurrent requests, against the real agent binary "
     "(-race, shim and session tracking on) behind a fake proxy and a faulty raw backend. Invariant: agent alive, no race/fatal/panic "
     "output, every healthy request (before, during, after) uploaded with its own content, 502 when the backend is unreachable.",
@@ -87,7 +88,7 @@ add("C07", "fault_enumeration",
     "fault injection driven by rapid-generated request/fault streams + exhaustive kind x position grid; history invariant oracle", "3/C07")
 add("C10", "exploration",
     "Generated request histories (session slots, anonymous and forged ids, hosts, paths incl. trailing-slash, empty and dot segments, backend Set-Cookie operations incl. deletion, "
-    "path/domain scoping, Secure/HttpOnly, exotic Set-Cookie lines a strict parser skips, client-supplied extra cookies; cache limit, lifetime and SSL override generated) run against "
+    "path/domain scoping, Secure/HttpOnly, exotic Set-Cookie lines a strict parser skips, 1xx interim responses in front of the final one (relayed the way httputil.ReverseProxy does), client-supplied extra cookies; cache limit, lifetime and SSL override generated) run against "
     "the sessions.Cache handler in-process and are compared step by step with one independent net/http/cookiejar per session id; every "
     "cookie value carries its session tag so a cross-session leak is visible independently of the model; attributes and expiry of the "
     "issued session cookie are checked. A concurrent part runs 8-32 goroutines over shared/different sessions under -race.",
@@ -100,13 +101,14 @@ add("C11", "exploration",
     "against websockets.Proxy in-process with a real gorilla/websocket backend and are compared with model queues in both directions. "
     "Injection: generated JSON/non-JSON messages x request headers with injection enabled, compared by a JSON-value oracle (byte identity "
     "for everything that is not a single JSON object with a resource.headers object, e.g. two concatenated documents or an object followed by a trailer); a native fuzz target repeats the byte-identity half in the "
-    "thorough tier. Sequences and timings are sampled.",
+    "thorough tier. Close after burst: 4 sessions at a time post 12-24 messages of up to 1 MiB to a slowly reading backend and close at once; the backend must "
+    "receive all of them before it sees the connection closed. Sequences and timings are sampled.",
     "One data post and one poll outstanding at a time (as the browser shim does); polls are only issued while a message is outstanding, so "
     "the 20 s poll timeout is not exercised here. JSON numbers are float64-exact; version 0 carries text only.",
     "stateful property-based testing (rapid): generated message/batching sequences against model queues; JSON-value oracle for injection; native go fuzzing", "3/C11")
 add("C12", "exploration",
     "Generated call histories over three session slots (open, data/poll/close with valid, unknown, already-closed, malformed and wrongly typed "
-    "arguments and odd message shapes, backend sends, backend closes with and without immediate polling, slow-failing opens overlapping successful ones) and concurrent groups of 2-6 calls on one session released from a barrier run against "
+    "arguments and odd message shapes, backend sends, backend closes with and without immediate polling, slow-failing opens overlapping successful ones, sessions whose backend never reads and so never answers the close frame) and concurrent groups of 2-6 calls on one session released from a barrier run against "
     "websockets.Proxy in-process under -race; a state-machine model of the session table yields the allowed status set per call; every "
     "call must be answered (a panic is caught per call, an unanswered call after 15 s is a wedge); a new session id must differ from the id of every session still open; the backend must observe client closes, "
     "and polls after a backend close must deliver the queued messages and then 400. Interleavings inside a group are sampled (hundreds of "
@@ -118,18 +120,18 @@ add("C13", "exploration",
     "Generated shim open bodies (every URL syntax class of net/url: hierarchical with foreign hosts, scheme-relative, path-only, opaque, "
     "empty, userinfo, IPv6 literals, odd ports, fragments, backslashes, control bytes, plus arbitrary byte strings; with and without --rewrite-websocket-host, foreign Host headers, backend paths that redirect the handshake) run against "
     "websockets.Proxy in-process while the network dialer used by the code is replaced by a recorder that refuses every address but the "
-    "backend's; confinement oracle on every recorded address, and path/query/Host of the handshake when it reaches the backend. A second "
+    "backend's; confinement oracle on every recorded address, and path/query/Host of the handshake when it reaches the backend (Host = the backend, or with --rewrite-websocket-host the host the client addressed; never the host named in the body). A second "
     "property sends generated requests outside the shim prefix and compares what the wrapped handler receives. A native fuzz target "
     "(seeded with one example per class) repeats the confinement oracle on raw bytes in the thorough tier.",
     "Observes dials made through websocket.DefaultDialer (what the code uses); a change that dials through another path would need the "
     "recorder to be extended. Pass-through uses clean paths only (http.ServeMux itself redirects unclean ones) and excludes the bare prefix '/shim'.",
     "property-based testing (rapid) + native go fuzzing: URL-class generators, dial-address confinement oracle", "3/C13")
 add("C14", "exploration",
-    "Banner: generated requests x wrapped-handler responses run through banner.Proxy in-process with a neutral recording ResponseWriter and "
+    "Banner: generated requests x wrapped-handler responses (some preceded by a 1xx interim response) run through banner.Proxy in-process with a neutral recording ResponseWriter and "
     "are compared with the wrapped handler's own response under a set-valued reference predicate written from the property text (altered "
     "=> GET, Accept text/html, 200, non-attachment, HTML type; already framed => body identical, only cache/frame headers differ; frame "
     "served => banner, frame src = requested URL, uncacheable, X-Frame-Options sameorigin). Shim script: generated bodies with <head> at "
-    "offsets around the 1024-byte window (ASCII, multi-byte and invalid-UTF-8 filler) and generated read segmentations run through websockets.ShimBody (optionally followed by the "
+    "offsets around the 1024-byte window (ASCII, multi-byte and invalid-UTF-8 filler), bodiless responses and generated read segmentations run through websockets.ShimBody (optionally followed by the "
     "banner handler); the body must be the original or the original with exactly one script block spliced after the first <head>, and "
     "must be spliced when <head> lies inside the first read. Concurrent banner part: 8-32 goroutines x 5-20 framed requests for distinct URLs through one banner.Proxy with a slow writer; "
     "each page must equal the page served for the same URL on its own. Native fuzz targets repeat both oracles on raw inputs in the thorough tier.",
@@ -138,7 +140,7 @@ add("C14", "exploration",
     "property-based testing (rapid) + native go fuzzing: differential feature-on vs. wrapped response under a reference predicate; splice-validity oracle", "3/C14")
 add("C15", "exploration",
     "Generated sets of 1-16 concurrent connections (write-size vectors around the 1024-byte websocket buffers up to 1 MiB over all byte "
-    "values, read-buffer sizes 1..64 KiB, pauses, both directions at once) run through the real tcp-bridge-frontend and tcp-bridge-backend "
+    "values, read-buffer sizes 1..64 KiB, pauses, both directions at once, client-first and server-first connections) run through the real tcp-bridge-frontend and tcp-bridge-backend "
     "binaries (-race) to a harness TCP server; every stream is a deterministic function of connection id and direction and is compared by "
     "length, content and hash at the receiver. Non-bridge HTTP requests sent to the bridge backend are compared at a recording raw backend. "
     "connection.WebsocketNetConn is additionally exercised in-process (1-4 pairs at the same time; rapid + native fuzz target) for write/read reassembly and isolation between connections.",
@@ -149,7 +151,8 @@ add("C16", "exploration",
     "Generated histories of 1-20 bridged connections (closer = client or server, byte counts in both directions, close mode clean / dirty / dirty-quiet "
     "/ both-at-once / target-down, start offsets) run through the real bridge binaries; the far peer must observe end-of-stream within 5 s of the close, "
     "for clean closes after reading exactly the bytes written before it, and the file-descriptor counts of both bridge processes "
-    "(/proc/<pid>/fd) must return to their baseline once every endpoint is closed. Orders and timings are sampled.",
+    "(/proc/<pid>/fd) must return to their baseline once every endpoint is closed. Stalled reader: 8-32 MiB are written and closed while the other peer starts reading "
+    "only 11-13 s later; every byte and then end-of-stream must arrive, and the writer must not fail. Orders and timings are sampled.",
     "A close is 'clean' when the closer has read everything sent to it and the far side is quiescent (a TCP peer closing with unread input "
     "emits RST and no relay can promise delivery then); only end-of-stream and the fd baseline are asserted for dirty/both closes. The 5 s "
     "bound is three orders of magnitude above the observed latency; a miss is re-run once before it counts.",
@@ -160,13 +163,14 @@ add("C18", "exploration",
     "LookupBackend in-process; an independent longest-prefix specification yields the set of acceptable answers (ties and dead best matches "
     "are set-valued); determinism under repetition and under permuted insertion order into a fresh datastore, and a metamorphic relation "
     "(adding a non-matching backend changes nothing) are checked as well. The thorough tier enumerates all registries of <= 3 single-prefix "
-    "backends exhaustively (about 23 000 registries x 8 paths).",
+    "backends exhaustively (about 23 000 registries x 8 paths). A process-level part (answered-then-dead) runs the real App Engine proxy binary: a user's GET is answered, the backend "
+    "is deleted or its last poll aged beyond the window, and the same GET and a fresh one must then be answered 404 (a live control must be served).",
     "The fake datastore implements only what the code uses (kind queries with equality/inequality filters in key order, strong consistency); "
     "eventual consistency and index lag of the real Datastore are outside the model. Ages are set 2 s away from the window boundary.",
     "property-based testing (rapid) against an independent set-valued specification; metamorphic and determinism relations; bounded-exhaustive enumeration in the thorough tier", "3/C18")
 add("C17", "exploration",
     "Generated call histories (admin API calls by five kinds of caller, agent pending/request/response calls with every combination of "
-    "OAuth identity, backend id and request id class, re-registration of a backend id for another agent account or end user, end-user requests by owners, other users and anonymous callers, two users on the same path prefix fetching the same cacheable long URL) run against the three "
+    "OAuth identity (incl. a valid token without e-mail address), backend id and request id class, re-registration of a backend id for another agent account or end user, end-user requests by owners, other users and anonymous callers, two users on the same path prefix fetching the same cacheable long URL) run against the three "
     "services of the real App Engine proxy binary (-race) on a wire-level fake of datastore_v3/memcache/user, the harness playing the App "
     "Engine front end; a reference access-control model gives the status class of every call (401/403/404/400/200), and the registry, the "
     "Completed flags and the routing of stored requests are read back from the fake datastore after each step; clients must receive exactly "
@@ -175,7 +179,7 @@ add("C17", "exploration",
     "set by the harness, never taken from a simulated client; /cron/* is admin-only by app configuration and not exercised with other callers.",
     "stateful property-based testing (rapid): generated call histories against a reference access-control model with store read-back", "3/C17")
 add("C19", "fault_enumeration",
-    "Relay: generated sets of 1-8 concurrent end-user requests over 1-3 backends run through the three services of the real App Engine "
+    "Relay: generated sets of 1-8 concurrent end-user requests (some with non-canonical query strings) over 1-3 backends (ids of 2 or of 400 bytes) run through the three services of the real App Engine "
     "proxy binary (-race) on the fake App Engine API, with harness-played agents listing, fetching and responding in generated orders; "
     "payloads are calibrated so that the serialised size lands exactly on 999999/1000000/1000001/1999999/2000000/2000001/3.5M; fetched "
     "bytes must parse back to the client's own request and each client must receive the response posted under its own id; completed ids "
